@@ -1005,7 +1005,11 @@ class OdeSystem(object):
 
         # Same threshold as the exit test of the integration loop: a target this close is already reached, carrying
         # on would only shrink dt to the (unresolvable) distance left and stall later calls with zero-length steps
-        if D.ar_numpy.abs(tf - self.__t[self.counter]) < D.tol_epsilon(self.__y[self.counter].dtype):
+        # (far from zero the threshold is a few units of the resolution of the time itself: a distance that another step
+        # cannot resolve counts as reached)
+        __reached = D.ar_numpy.maximum(D.tol_epsilon(self.__y[self.counter].dtype),
+                                       D.epsilon(self.__y[self.counter].dtype) * D.ar_numpy.maximum(D.ar_numpy.abs(tf), D.ar_numpy.abs(self.__t[self.counter])))
+        if D.ar_numpy.abs(tf - self.__t[self.counter]) < __reached:
             return
         steps = 0
 
@@ -1058,7 +1062,7 @@ class OdeSystem(object):
         end_int = False
         self.__allocate_soln_space(total_steps)
         try:
-            while (implicit_integration or (self.dt != 0 and D.ar_numpy.abs(tf - self.__t[self.counter]) >= D.tol_epsilon(self.__y[self.counter].dtype))) and not end_int:
+            while (implicit_integration or (self.dt != 0 and D.ar_numpy.abs(tf - self.__t[self.counter]) >= __reached)) and not end_int:
                 # The dt setter orients the step along (t0, tf) of the system, this call may be heading the other way
                 self.__fix_dt_dir(tf, self.__t[self.counter])
                 if not implicit_integration and D.ar_numpy.abs(self.dt) > D.ar_numpy.abs(tf - self.__t[self.counter]):
